@@ -16,7 +16,7 @@ pub const ASCII_NAMES: &[&str] = &["x", "Y", "abc", "Zz", "camelCase", "y", "z",
 pub const DIGIT_NAMES: &[&str] = &["a1", "_u", "x_9_", "__", "_0", "a10", "a2", "A_1", "z9z"];
 pub const GREEK_NAMES: &[&str] = &["α", "ω", "Ωmega", "βeta2", "γ_1", "Α", "λx", "xλ"];
 pub const BRACED_NAMES: &[&str] = &[
-    " x", " ", "a b", "1abc", "9", "👍", "👍+👎", "sin", "+", "(", "a)b", "a{b", "x,y", "2*3", "{", "é", "x y z", "-x", "3.5", "PI", "a\tb", "x ", "(x)", "mx", "",
+    " x", " ", "a b", "1abc", "9", "10", "2", "007", "100", "👍", "👍+👎", "sin", "+", "(", "a)b", "a{b", "x,y", "2*3", "{", "é", "x y z", "-x", "3.5", "PI", "a\tb", "x ", "(x)", "mx", "",
 ];
 
 fn name_pool(rng: &mut Rng, n: usize, table: &Table) -> Vec<String> {
@@ -259,6 +259,21 @@ fn shipped_problem(rng: &mut Rng, st: &mut Stats) -> Option<(String, String)> {
                 let vals: Vec<f64> = (0..nv).map(|k| 0.5 + k as f64 * 0.1).collect();
                 if p.eval(&vals).is_err() || p.eval(&vals[..nv - 1]).is_ok() {
                     return Some("derivative does not evaluate with exactly the antiderivative's slice".into());
+                }
+                // whatever is derived from a derivative still lists the antiderivative's variables
+                let pd2 = p.clone().to_deepex().ok()?;
+                if pd2.var_names() != want.as_slice() || pd2.eval(&vals).is_err() {
+                    return Some(format!("derivative w.r.t. {} converted to a deep expression lists {:?} (or does not evaluate), antiderivative {want:?}", want[idx], pd2.var_names()));
+                }
+                let ps = p.clone().operate_unary("sin").ok()?;
+                if ps.var_names() != want.as_slice() || ps.eval(&vals).is_err() {
+                    return Some(format!("sin applied to the derivative w.r.t. {} lists {:?} (or does not evaluate), antiderivative {want:?}", want[idx], ps.var_names()));
+                }
+                let p2 = p.clone().partial(nv - 1);
+                match p2 {
+                    Ok(p2) if p2.var_names() == want.as_slice() => {}
+                    Ok(p2) => return Some(format!("second derivative lists {:?}, antiderivative {want:?}", p2.var_names())),
+                    Err(e) => return Some(format!("second derivative w.r.t. the last variable of {want:?} fails: {}", e.msg())),
                 }
                 // also when the derivative collapsed to a constant: relaxed evaluation rejects too few values
                 if p.eval_relaxed(&vals[..nv - 1]).is_ok() || pd.eval_relaxed(&vals[..nv - 1]).is_ok() || p.eval_relaxed(&vals).is_err() || pd.eval(&vals[..nv - 1]).is_ok() {
